@@ -207,6 +207,18 @@ def _is_satinc(t, n, pf):
     return False
 
 
+def _ivar_over_buffer(ts, lab, e):
+    if not (isinstance(e, tuple) and e[0] == "ivar"):
+        return False
+    b = ts.methods[lab][1]["exec"].ivar_bounds.get(e)
+    if not b or b["start"] != cu(0):
+        return False
+    if b["array"] and b["array"][0] == "self" and len(b["array"]) == 2 and b["array"][1] in ts.buffers:
+        return True
+    end = b["end"]
+    return b["array"] is None and isinstance(end, tuple) and ((end[0] == "pre" and end[1].split(".")[-1] in ts.len_fields) or end[0] == "len")
+
+
 def _try_cursor(ts, x, posts, P, usize_state):
     px = ("pre", "self." + x)
     inc = ("+", px, cu(1))
@@ -237,6 +249,8 @@ def _try_cursor(ts, x, posts, P, usize_state):
                 continue  # checked afterwards: must itself be a cursor
             if leaf[0] == "ucall" and leaf[1] in ts.index_fns:
                 continue
+            if leaf[0] == "pick" and leaf[1] == cu(0) and leaf[2] and all(_ivar_over_buffer(ts, lab, e) for e in leaf[2]):
+                continue  # an inlined scan: 0 or a position of the struct's own buffer
             return False, "%s stores %s" % (lab, show(leaf)[:60])
     return True, pf_used or (P[0] if P else None)
 
